@@ -21,7 +21,7 @@ Your task: make ONE small, realistic change to the library source (not the tests
  (a) the package still imports, and the existing test suite still passes completely: cd {wt} && PYTHONPATH={wt}/src /venv/bin/python -m pytest -q -p no:cacheprovider --timeout=900 -x -q  (takes ~5 minutes; 475 tests must pass), and
  (b) the breakage needs something SPECIFIC to manifest - a particular size/length boundary, an unusual but valid input, a multi-step sequence of operations, a particular combination of options, or two cooperating sites that each look fine alone - NOT something ordinary use would expose at once. Think of the kind of off-by-one, wrong-comparison, stale-cache, missed-branch or boundary mistakes a maintainer could plausibly make in a refactoring or "optimisation".
 
-{("Another engineer has already produced a mutation in src/dliswriter/" + avoid + " - choose a DIFFERENT file, or at least a clearly different function and mechanism, so that the two mutations are unrelated.") if avoid else ""}
+{("Other engineers have already produced mutations in: " + ", ".join("src/dliswriter/" + a for a in avoid.split(",")) + " - choose a DIFFERENT file where you can, and in any case a clearly different function and mechanism, so that the mutations are unrelated. Prefer a mechanism that a single ordinary build-and-write would not expose: state carried between calls or between writes of the same object, interaction of two features, a rarely used but documented input type or route, or a boundary value of a length/count/reference field.") if avoid else ""}
 
 Deliver, inside {wt}:
  1. the change itself, left UNCOMMITTED in the worktree (I will collect it with `git diff`);
